@@ -213,22 +213,22 @@ func NewCache(sessionCookieName string, sessionCookieTimeout time.Duration, cook
 	}
 }
 
-// addJarToCache takes a Jar from http.Client and stores it in a cache
-func (c *Cache) addJarToCache(sessionID string, jar http.CookieJar) {
-	c.mu.Lock()
-	c.cache.Add(sessionID, jar)
-	c.mu.Unlock()
-}
-
-// cachedCookieJar returns the CookieJar mapped to the sessionID
+// cachedCookieJar returns the CookieJar mapped to the sessionID, creating and caching
+// a new one if there is none.
+//
+// The lookup and the insertion are done under the same lock: the LRU cache is not safe
+// for concurrent use (even its Get method modifies it), and two concurrent first
+// requests of one session must end up sharing a single jar.
 func (c *Cache) cachedCookieJar(sessionID string) (jar http.CookieJar, err error) {
+	c.mu.Lock()
+	defer c.mu.Unlock()
 	val, ok := c.cache.Get(sessionID)
 	if !ok {
 		options := cookiejar.Options{
 			PublicSuffixList: publicsuffix.List,
 		}
 		jar, err = cookiejar.New(&options)
-		c.addJarToCache(sessionID, jar)
+		c.cache.Add(sessionID, jar)
 		return jar, err
 	}
 
